@@ -28,6 +28,9 @@ PASS_BUILTINS = {"list", "sorted", "reversed", "enumerate", "zip", "next", "iter
 SCALAR_ATOMS = {"int", "float", "bool", "str", "none", "arg"}
 
 
+OPAQUE = "arguments passed by ** expansion (not modelled)"
+
+
 class OwnershipEngine:
     def __init__(self, program: Program, kinds: KindEngine | None = None):
         self.p = program
@@ -403,6 +406,9 @@ class _FuncTaint:
             if kw.arg is None or kw.arg in retained:
                 t, why = self.T(kw.value)
                 if t:
+                    if kw.arg is None:
+                        # `Cls(**mapping)`: which value goes into which field is decided at run time -- outside the model
+                        return True, f"{OPAQUE}: {cls}(**...) built from {why}"
                     return True, f"{cls}({kw.arg}=...) keeps {why}"
         return False, ""
 
@@ -480,6 +486,24 @@ def engine_for(ctx: Ctx) -> OwnershipEngine:
     return _cache[key]
 
 
+def _opaque_functions(eng: OwnershipEngine) -> set:
+    """Functions whose "may share" verdict rests, directly or through the callees named in its explanation, on a ** constructor call."""
+    cached = getattr(eng, "_opaque", None)
+    if cached is not None:
+        return cached
+    whys = {q: w for (q, k), w in eng.why.items() if k == "ret"}
+    out = {q for q, w in whys.items() if OPAQUE in w}
+    changed = True
+    while changed:
+        changed = False
+        for q, w in whys.items():
+            if q not in out and any(f"{o}()" in w for o in out):
+                out.add(q)
+                changed = True
+    eng._opaque = out
+    return out
+
+
 def check_routes(ctx: Ctx, rule: str = "OWN1", routes=None) -> None:
     eng = engine_for(ctx)
     p = ctx.p
@@ -491,6 +515,9 @@ def check_routes(ctx: Ctx, rule: str = "OWN1", routes=None) -> None:
             ctx.sample({"route": q, "result": "fresh"})
         else:
             why = eng.why.get((q, "ret"), "")
+            if q in _opaque_functions(eng):
+                ctx.undetermined(rule, q, f"freshness of the result depends on a constructor call with ** arguments: not judged ({why[:120]})")
+                continue
             ctx.violation(rule, q, function=q, construct="derivation route returns objects shared with its source",
                           message=f"the value returned by {q} may reference message objects or lists owned by the "
                                   f"source: {why}", file=fi.file, node=fi.node, path=[why] if why else [])
